@@ -16,6 +16,7 @@ Helper lemmas: EPV/Lemmas/Regex*.lean.
 import EPV.Lemmas.RegexDeriv
 import EPV.Lemmas.RegexClass
 import EPV.Lemmas.RegexFuns
+import EPV.Lemmas.RegexScanner
 namespace EPV.C12
 open EPV.Regex
 
@@ -100,6 +101,25 @@ theorem subtraction_fails_mixed :
 `iterparse_character_subset`): kernel-checked witnesses of findings F12s, F12u and agreement on
 ordinary classes.  There is no ∀-theorem about the scanner; it is tied to the code, bugs
 included, by the CLS correspondence only. -/
+
+/-- PARTIAL.  Full statement (DESIGN: `charclass_denote`): for every class text `src`,
+`denote (parseClass src) = specClass src`.  Proved here for the transcribed scanner on the fragment
+"`[` body `]` with a non-empty body of plain characters" (no backslash, hyphen or bracket, not
+starting with `^`), for every table set, XSD version and flavour: the text is accepted and the class
+contains exactly the characters of the body (XSD [77]-[80]: a group of singleChars denotes their
+union).  Outside this fragment (ranges, escapes, negation, subtraction) the scanner is tied to the
+XSD reading by the CLS correspondence only; F12s/F12u show where it is wrong. -/
+theorem charclass_scan_plain_partial (T : MTables) (v10 xp : Bool) (body : List Ch) (hne : body ≠ [])
+    (hp : ∀ c ∈ body, Plain c) (h0 : body.head? ≠ some 94) :
+    ∃ cc, parseClassText T v10 xp (91 :: (body ++ [93])) = some cc ∧ ∀ x, cc.contains x = decide (x ∈ body) :=
+  scanner_plain T v10 xp body hne hp h0
+
+/-- test on literals: the hypotheses hold for `[ab^ .]` -/
+example : (∀ c ∈ [97, 98, 94, 32, 46], Plain c) ∧ ([97, 98, 94, 32, 46] : List Ch).head? ≠ some 94 := by
+  refine ⟨?_, by decide⟩
+  intro c hc
+  simp only [List.mem_cons, List.not_mem_nil, or_false] at hc
+  rcases hc with rfl | rfl | rfl | rfl | rfl <;> (unfold Plain; decide)
 
 /-- small stand-in tables for the witnesses: `\d` = ASCII digits, `\s` = XSD white space -/
 def T0 : MTables := { esc := fun e => if e == 100 then digits else white, prop := fun _ => none }
